@@ -1,6 +1,12 @@
 #!/bin/sh
 # usage: tools/soak.sh <first seed> <last seed>  — runs every check (quick tier) for a range of seeds; prints only lines that need attention
 cd "$(dirname "$0")/.." || exit 2
+# under `vp run --with-repo` the crate is a private snapshot ($VP_RUN_REPO): point this COPY of the harness at it, so that
+# changes applied to /repo meanwhile (seeded mutants being evaluated) cannot contaminate the soak
+if [ -n "$VP_RUN_REPO" ] && [ "$(pwd)" != "/verif" ]; then
+  sed -i "s#path = \"/repo\"#path = \"$VP_RUN_REPO\"#" harness/Cargo.toml
+  cp "$VP_RUN_REPO/Cargo.lock" harness/Cargo.lock 2>/dev/null
+fi
 ./setup.sh > /dev/null 2>&1 || { echo "setup failed"; exit 2; }
 for seed in $(seq "$1" "$2"); do
   for p in C01 C02 C03 C04 C05 C06 C07 C08 C09 C10 C11 C12 C13 C14 C15 C16 C17 C18; do
